@@ -44,8 +44,8 @@ theorem wp_mono {m : M α} {Q Q' : α → PS → Prop} {R R' : PS → Prop} {s :
     wp (fault f : M α) Q R s ↔ False := Iff.rfl
 
 @[simp] theorem wp_ite (c : Prop) [Decidable c] (a b : M α) (Q : α → PS → Prop) (R : PS → Prop) (s : PS) :
-    wp (if c then a else b) Q R s ↔ if c then wp a Q R s else wp b Q R s := by
-  split <;> rfl
+    wp (if c then a else b) Q R s ↔ (c → wp a Q R s) ∧ (¬c → wp b Q R s) := by
+  split <;> simp_all
 
 theorem wp_attempt (m : M α) (Q : Except ErrCode α → PS → Prop) (R : PS → Prop) (s : PS)
     (h : wp m (fun a s' => Q (.ok a) s') (fun s' => ∀ c, Q (.error c) s') s) : wp (attempt m) Q R s := by
@@ -107,12 +107,17 @@ def NamesOK (g : Groups.PState) : Prop := g.capnames.isSome = true → g.capname
 
 /-- from `s` to `s'`: the position did not go back and is inside the pattern, only position, options,
     `ignoreNextParen` and the capture tables may differ -/
-def Adv (s s' : PS) : Prop :=
-  s.pos ≤ s'.pos ∧ s'.pos ≤ E.pat.length ∧ s'.frame = s.frame ∧ (NamesOK s.g → NamesOK s'.g)
+structure Adv (s s' : PS) : Prop where
+  le : s.pos ≤ s'.pos
+  inside : s'.pos ≤ E.pat.length
+  frame : s'.frame = s.frame
+  names : NamesOK s.g → NamesOK s'.g
+
+attribute [irreducible] NamesOK
 
 theorem Adv.refl (s : PS) (h : s.pos ≤ E.pat.length) : Adv E s s := ⟨Nat.le_refl _, h, rfl, id⟩
 theorem Adv.trans {a b c : PS} (h1 : Adv E a b) (h2 : Adv E b c) : Adv E a c :=
-  ⟨Nat.le_trans h1.1 h2.1, h2.2.1, h2.2.2.1.trans h1.2.2.1, fun h => h2.2.2.2 (h1.2.2.2 h)⟩
+  ⟨Nat.le_trans h1.le h2.le, h2.inside, h2.frame.trans h1.frame, fun h => h2.names (h1.names h)⟩
 
 /-- `m` is a scanner: from any position inside the pattern it returns (normally or with an error)
     in an `Adv`-related state; it never faults and never runs out of fuel -/
@@ -122,6 +127,19 @@ def Scans (m : M α) : Prop :=
 theorem wp_of_scans {m : M α} (h : Scans E m) {Q : α → PS → Prop} {R : PS → Prop} {s : PS}
     (hs : s.pos ≤ E.pat.length) (hq : ∀ a s', Adv E s s' → Q a s') (hr : ∀ s', Adv E s s' → R s') :
     wp m Q R s := wp_mono (h s hs) hq hr
+
+/-- calling a scanner: its postcondition, field by field, for the continuation -/
+theorem wp_call {m : M α} (h : Scans E m) {Q : α → PS → Prop} {R : PS → Prop} {s : PS}
+    (hs : s.pos ≤ E.pat.length)
+    (hq : ∀ a s', s.pos ≤ s'.pos → s'.pos ≤ E.pat.length → s'.frame = s.frame → (NamesOK s.g → NamesOK s'.g) → Q a s')
+    (hr : ∀ s', s.pos ≤ s'.pos → s'.pos ≤ E.pat.length → s'.frame = s.frame → (NamesOK s.g → NamesOK s'.g) → R s') :
+    wp m Q R s :=
+  wp_mono (h s hs) (fun a s' h' => hq a s' h'.le h'.inside h'.frame h'.names)
+    (fun s' h' => hr s' h'.le h'.inside h'.frame h'.names)
+
+theorem Scans.at {m : M α} (h : Scans E m) {s0 s1 : PS} (h01 : Adv E s0 s1) :
+    wp m (fun _ s' => Adv E s0 s') (Adv E s0) s1 :=
+  wp_mono (h s1 h01.inside) (fun _ _ h' => h01.trans E h') (fun _ h' => h01.trans E h')
 
 /-! ## Leaf scanners -/
 
@@ -306,6 +324,28 @@ theorem wp_scanOctal (s : PS) (hs : s.pos < E.pat.length) :
     have := octGo_bounds s.options.e 3 (c :: r) 0 0
     omega
 
+theorem wp_scanOctal_at {s0 s1 : PS} (h01 : Adv E s0 s1) (hlt : s1.pos < E.pat.length) :
+    wp (scanOctal E) (fun _ s' => Adv E s0 s') (Adv E s0) s1 :=
+  wp_mono (wp_scanOctal E s1 hlt) (fun _ _ h' => h01.trans E h') (fun _ h' => h01.trans E h')
+
 end
+
+syntax "wp_simp" : tactic
+macro_rules
+  | `(tactic| wp_simp) => `(tactic| simp only [wp_bind, wp_pure, wp_ite, wp_moveRightGetChar, wp_moveLeft, wp_textpos, wp_opts,
+      wp_charsRight, wp_rest, wp_moveRight, wp_throw, wp_textto, wp_rightChar, wp_charAt, wp_get, wp_modify, wp_fault, wp_setOpts])
+
+/-- close an `Adv` goal, one of its components, or a bound on a position from the facts in the context -/
+syntax "adv" : tactic
+macro_rules
+  | `(tactic| adv) => `(tactic| first
+      | omega
+      | (dsimp only at *; omega)
+      | (constructor <;> (try dsimp only [PS.frame] at *) <;> (try simp_all) <;> (try omega) <;> done)
+      | ((try dsimp only [PS.frame] at *); (try simp_all); (try omega); done))
+
+syntax "wp_split" : tactic
+macro_rules
+  | `(tactic| wp_split) => `(tactic| repeat' (first | apply And.intro | intro _))
 
 end RegexVerif.Parser
